@@ -24,6 +24,10 @@ ASSUMPTIONS = [
     "handshake, PING, lone OUT tokens, to address 0 after SET_ADDRESS and to neighbouring / random addresses, SOFs in between, preferably right "
     "after own OUT traffic; the observer grants no solicitation for any of it, so ANY transmission by the device inside a transaction whose token "
     "was not addressed to it is reported (directed histories directed_foreign + random flavour 'foreign')",
+    "interleaving: between the SETUP and status stages of no-data control requests (SET_ADDRESS, SET_CONFIGURATION, CLEAR_FEATURE) and between "
+    "the stages of requests with a data stage the host scripts serve the other endpoints in every readiness -- bulk IN empty (NAK) / with data, bulk "
+    "OUT with room (ACK) / full (NAK), PING, status IN, SOF -- under tx_ready probabilities 1, 0.5, 0.25 (directed_interleave) and at random; the "
+    "observer demands one well-formed packet from one source per solicitation, so two transmitters answering the same token are reported",
     "request discipline of the transmit-path theorems (txq_env): nothing in flight -> at most one of {handshake request, data request} per "
     "cycle; handshake in flight -> no data request; data packet in flight -> no handshake request, utmi.rx_valid low, stream.valid held during "
     "the payload; no chirp while anything is in flight.  It is NOT proved from the endpoint models; it is checked on every simulated "
@@ -369,6 +373,8 @@ def device_script(rng, mps, prod, flavour):
 
     async def script(h):
         h.own_out_pid = PID_DATA0
+        if flavour != "foreign" and rng.random() < 0.6:
+            h.interlude = interlude_of(rng, prod, mps, None)     # other endpoints are served between control stages
         await h.idle(rng.randint(2, 6))
         if flavour in ("enum", "foreign") or rng.random() < 0.5:
             await enumerate_(h)
@@ -392,6 +398,84 @@ def device_script(rng, mps, prod, flavour):
                     await foreign_traffic(h, rng, mps)
             await h.idle(rng.randint(0, 6))
         await h.idle(PATIENCE + 10)
+    return script
+
+
+async def other_endpoint_txn(h, rng, prod, mps, kind):
+    """one transaction on an endpoint other than the control endpoint, of a chosen kind / readiness"""
+    if kind == "in_empty":          # bulk IN with nothing to send: NAK (handshake generator)
+        await h.in_txn(1)
+    elif kind == "in_data":         # bulk IN with a packet ready: data (data transmitter)
+        prod.push([rng.randrange(256) for _ in range(rng.choice([1, 3, mps]))])
+        await h.idle(mps + 8)
+        await h.in_txn(1)
+    elif kind == "out_room":        # bulk OUT with room: ACK
+        old, h.out_ready_p = h.out_ready_p, 1.0
+        await h.idle(2 * mps)
+        res = await h.out_txn(1, [rng.randrange(256) for _ in range(rng.choice([0, 1, 3]))], data_pid=h.own_out_pid)
+        if res == ('hs', PID_ACK):
+            h.own_out_pid = PID_DATA1 if h.own_out_pid == PID_DATA0 else PID_DATA0
+        h.out_ready_p = old
+    elif kind == "out_full":        # bulk OUT whose buffer is full (consumer stalled): NAK
+        old, h.out_ready_p = h.out_ready_p, 0.0
+        for _ in range(4):
+            res = await h.out_txn(1, [rng.randrange(256) for _ in range(mps)], data_pid=h.own_out_pid)
+            if res == ('hs', PID_ACK):
+                h.own_out_pid = PID_DATA1 if h.own_out_pid == PID_DATA0 else PID_DATA0
+            else:
+                break
+        h.out_ready_p = old
+    elif kind == "ping":
+        await h.token(PID_PING, rng.choice([1, 0]))
+        await h.wait_response()
+    elif kind == "in_status":       # the status / interrupt IN endpoint: data
+        await h.in_txn(2)
+    else:
+        await h.send_packet(sof_bytes(rng.randrange(2048)))
+
+
+OTHER_KINDS = ["in_empty", "in_data", "out_room", "out_full", "ping", "in_status", "sof"]
+
+
+def interlude_of(rng, prod, mps, kinds):
+    """interlude for HostSim.control_in/out: between the stages of a control transfer the host serves other endpoints"""
+    async def f(h, where):
+        for kind in (kinds if kinds is not None else [rng.choice(OTHER_KINDS) for _ in range(rng.randint(0, 2))]):
+            await other_endpoint_txn(h, rng, prod, mps, kind)
+    return f
+
+
+def directed_interleave(prod, mps, rng):
+    """Directed history (seeded/C20_3): between the SETUP stage and the status stage of no-data control requests, and between the
+    stages of requests with a data stage, the host polls the other endpoints in every readiness: bulk IN empty (NAK) and with data,
+    bulk OUT with room (ACK) and full (NAK), PING, the status IN endpoint.  Nothing but the addressed endpoint may answer, with ONE
+    packet: two transmitters driving at once show up as a malformed packet / two source lines."""
+    async def script(h):
+        h.own_out_pid = PID_DATA0
+        await h.idle(4)
+
+        async def req(name):
+            if name == "set_address": return await h.set_address(rng.choice([5, 0x2A, 0x7E]))
+            if name == "set_config": return await h.control_out(0x00, 9, rng.choice([0, 1]))
+            if name == "clear_in": return await h.control_out(0x02, 1, 0, 0x81)
+            if name == "clear_out":
+                r = await h.control_out(0x02, 1, 0, 0x01)
+                if r == 'ok': h.own_out_pid = PID_DATA0
+                return r
+            if name == "get_desc": return await h.control_in(0x80, 6, 0x0100, 0, 18, mps=64)
+            if name == "get_status": return await h.control_in(0x80, 0, 0, 0, 2, mps=64)
+            if name == "get_config": return await h.control_in(0x80, 8, 0, 0, 1, mps=64)
+        plan = [("set_address", "in_empty"), ("set_config", "in_empty"), ("clear_in", "in_empty"), ("get_desc", "in_empty"),
+                ("set_config", "ping"), ("clear_out", "in_status"), ("set_address", "out_room"), ("get_status", "out_room"),
+                ("set_config", "in_data"), ("get_desc", "in_data"), ("clear_in", "sof"),
+                ("set_config", "out_full"), ("get_config", "out_full"), ("set_address", "in_status")]
+        for name, kind in plan:
+            h.interlude = interlude_of(rng, prod, mps, [kind])
+            await req(name)
+            await h.idle(rng.randint(1, 4))
+        h.interlude = None
+        h.out_ready_p = 1.0
+        await h.idle(PATIENCE + 4 * mps)
     return script
 
 
@@ -463,6 +547,12 @@ def device_traces(t, rng, tier):
         prod = StreamProducer(sub)
         h = HostSim(t.build, sub, const=dict(line_state=1, connect=1, status=0x1234), ready_p=1.0, timeout=PATIENCE + 8, gap=3, in_stream=prod)
         h.run(directed_foreign(prod, mps, set_addr))
+        out.append(h.trace)
+    for ready_p in (1.0, 0.5, 0.25):
+        sub = random.Random(rng.getrandbits(32))
+        prod = StreamProducer(sub)
+        h = HostSim(t.build, sub, const=dict(line_state=1, connect=1, status=0x4321), ready_p=ready_p, timeout=PATIENCE + 8, gap=3, in_stream=prod)
+        h.run(directed_interleave(prod, mps, sub))
         out.append(h.trace)
     for k in range(n):
         sub = random.Random(rng.getrandbits(32))
